@@ -144,4 +144,41 @@ func firstLine(s string) string {
 	return s
 }
 
+// selfTestBenign: the other direction. /verif/benign holds behaviour-preserving edits (refactors a maintainer might
+// make, and seeded changes that a later repair made harmless); the check must stay silent on every one of them.
+func selfTestBenign(id, verif, repo string, r *Report) {
+	dirs, _ := filepath.Glob(filepath.Join(verif, "benign", "*", "patch.diff"))
+	sort.Strings(dirs)
+	r.rule(id+".benign", 0, "the check raises no alarm on any behaviour-preserving edit of the benign corpus (checker validation on a scratch copy)")
+	results := make([]selfTestResult, len(dirs))
+	var wg sync.WaitGroup
+	sem := make(chan struct{}, 6)
+	for i, d := range dirs {
+		wg.Add(1)
+		go func(i int, d string) {
+			defer wg.Done()
+			sem <- struct{}{}
+			defer func() { <-sem }()
+			results[i] = runSeeded(id, filepath.Dir(d), filepath.Base(filepath.Dir(d)), repo, verif)
+		}(i, d)
+	}
+	wg.Wait()
+	for _, res := range results {
+		switch res.Result {
+		case "survived":
+			if res.Detail == "exit 0" {
+				r.ok(id+".benign", res.Mutant, "", "silent on the scratch copy")
+			} else {
+				r.cerr(id+".benign", res.Mutant, "unexpected outcome on the benign edit %s: %s", res.Mutant, res.Detail)
+			}
+		case "skipped":
+			r.ok(id+".benign", res.Mutant, "", "skipped: "+res.Detail)
+			r.note("benign: %s skipped: %s", res.Mutant, res.Detail)
+		default:
+			r.cerr(id+".benign", res.Mutant, "the check raises an alarm on the behaviour-preserving edit %s (%s): a false alarm in the machinery", res.Mutant, res.Detail)
+		}
+	}
+	r.extra["benign_selftest"] = results
+}
+
 var _ = fmt.Sprintf
